@@ -116,6 +116,11 @@ func (c *Config) Validate() error {
 	c.mu.RLock()
 	defer c.mu.RUnlock()
 
+	return c.validateLocked()
+}
+
+// validateLocked checks the configuration; the caller holds c.mu
+func (c *Config) validateLocked() error {
 	if c.Version <= 0 {
 		return fmt.Errorf("%w: invalid version %d", ErrInvalidConfig, c.Version)
 	}
@@ -209,7 +214,9 @@ func (c *Config) SaveManifest(dbPath string) error {
 	c.mu.RLock()
 	defer c.mu.RUnlock()
 
-	if err := c.Validate(); err != nil {
+	// The read lock is already held: recursive read locking can deadlock
+	// against a waiting writer, so use the variant that does not lock
+	if err := c.validateLocked(); err != nil {
 		return err
 	}
 
